@@ -146,6 +146,14 @@ int main(int argc, char** argv) {
   for (double mu : {0.0, 1.0}) for (double s : {0.25, 4.0}) { auto d = std::make_shared<GaussianDiscreteDistribution>(4, mu, s); laws.push_back({"GaussianDiscreteDistribution(mu=" + num(mu) + ",sigma=" + num(s) + ").randC", 2, [d] { return d->randC(); }, [d](double x) { return d->pProb(x); }}); }
   for (double l : {0.25, 4.0}) { auto d = std::make_shared<ExponentialDiscreteDistribution>(4, l); laws.push_back({"ExponentialDiscreteDistribution(lambda=" + num(l) + ").randC", 1, [d] { return d->randC(); }, [d](double x) { return d->pProb(x); }}); }
   for (double l : {0.25, 4.0}) { auto d = std::make_shared<TruncatedExponentialDiscreteDistribution>(4, l, 2.0); laws.push_back({"TruncatedExponentialDiscreteDistribution(lambda=" + num(l) + ",tp=2).randC", 1, [d] { return d->randC(); }, [d](double x) { return d->pProb(x); }}); }
+  // seeded C18-11: the same draws after a parameter of the object was changed through the parameter interface (a support or a cached
+  // constant left over from the previous value would make the draws follow the old law while pProb follows the new one)
+  for (double l : {0.25, 4.0}) for (int up : {0, 1}) { auto d = std::make_shared<TruncatedExponentialDiscreteDistribution>(4, l, up ? 2.0 : 4.0); d->setParameterValue("tp", up ? 4.0 : 2.0);   // tp >= 2: the rejection step accepts more than a quarter of the first attempts at rate 0.25
+    laws.push_back({"TruncatedExponentialDiscreteDistribution(lambda=" + num(l) + ",tp=" + (up ? "2" : "4") + "); tp:=" + (up ? "4" : "2") + "; randC", 1, [d] { return d->randC(); }, [d](double x) { return d->pProb(x); }}); }
+  { auto d = std::make_shared<TruncatedExponentialDiscreteDistribution>(4, 0.25, 2.0); d->setParameterValue("lambda", 4.0); laws.push_back({"TruncatedExponentialDiscreteDistribution(lambda=0.25,tp=2); lambda:=4; randC", 1, [d] { return d->randC(); }, [d](double x) { return d->pProb(x); }}); }
+  { auto d = std::make_shared<ExponentialDiscreteDistribution>(4, 0.25); d->setParameterValue("lambda", 4.0); laws.push_back({"ExponentialDiscreteDistribution(lambda=0.25); lambda:=4; randC", 1, [d] { return d->randC(); }, [d](double x) { return d->pProb(x); }}); }
+  { auto d = std::make_shared<GaussianDiscreteDistribution>(4, 0.0, 0.25); d->setParameterValue("mu", 1.0); d->setParameterValue("sigma", 4.0); laws.push_back({"GaussianDiscreteDistribution(mu=0,sigma=0.25); mu:=1; sigma:=4; randC", 2, [d] { return d->randC(); }, [d](double x) { return d->pProb(x); }}); }
+  { auto d = std::make_shared<GammaDiscreteDistribution>(4, 4.0, 0.25); d->setParameterValue("alpha", 2.0); d->setParameterValue("beta", 4.0); laws.push_back({"GammaDiscreteDistribution(alpha=4,beta=0.25); alpha:=2; beta:=4; randC", 3, [d] { return d->randC(); }, [d](double x) { return d->pProb(x); }}); }
   { auto d = std::make_shared<UniformDiscreteDistribution>(4, -1.0, 3.0); laws.push_back({"UniformDiscreteDistribution(-1,3).randC", 1, [d] { return d->randC(); }, [d](double x) { return d->pProb(x); }}); }
   for (double a : {0.5, 4.0}) { auto d = std::make_shared<BetaDiscreteDistribution>(4, a, 2.0); laws.push_back({"BetaDiscreteDistribution(" + num(a) + ",2).randC", 1, [d] { return d->randC(); }, [d](double x) { return d->pProb(x); }}); }
   std::vector<LawCfg>* lawsP = &laws;
